@@ -24,8 +24,7 @@ TRUSTED = ["Coq 8.16.1 kernel + vm_compute (primitive floats)", "Rust executor /
 ASSUMPTIONS = ["Rust semantics of Vec/usize/f64 as modelled; f64::powf(|x|, 2.0) equals |x|*|x| (observed: model and implementation agree bit for bit on every compared run)",
                "the matrix-vector products are linear maps (hypothesis LinOp of the residual-invariant theorems; C07 proves it for the CSC products; "
                "discharged here for a concrete CSC matrix over Qc and over R)"]
-UNPROVED = ["the rounding drift between the recurrence residual and the true residual in f64 is not proved; the oracle bounds it by "
-            "64*(k+1)*2^-53*(||A||_2*X + ||b||)/||b||' on every Ok answer (search, not proof)",
+UNPROVED = ["the rounding drift between the recurrence residual and the true residual IS proved in the standard rounding model for CG, BiCG and BiCGSTAB (residual_drift, ok_means_solved_rounded, run_sparse_ok_means_solved_rounded: per update 4[(||A|| + m|||A|||) X + ||b||] u, X the model's own ghost trace; ok_means_solved_oracle_allowance derives the oracle's allowance 64*(k+1)*2^-53*(||A||_2*X + ||b||)/||b||' from it when m|||A||| <~ 30||A||); NOT proved: the same for QMR (its second recurrence is multiplied by unbounded scalars: the allowance is heuristic there) and the transfer to binary64 (finiteness / underflow of every intermediate); the drift is real: residual_drift_is_real exhibits Ok(4) with recurrence residual 1.5e-23 and true relative residual 4.5e-7",
             "finiteness of x on Ok in f64 is searched, not proved",
             "over a field a division by zero is a panic of the model (the theorems are silent on such runs); in f64 it yields inf/NaN -- covered by tie + search"]
 
@@ -37,8 +36,8 @@ MANIFEST = dict(
           "every iteration; QMR also s = A d), ok_means_solved (Ok => ||b - A x|| / ||b||' passes the code's test on the TRUE residual) and ok_means_solved_R "
           "(over the reals: ||b - A x||_2 <= tol ||b||') and x_keeps_length is the fourth any-arithmetic theorem; ok_means_solved_rows (the linearity hypothesis discharged for EVERY square matrix of EVERY order given as its list of rows). The float instance of the same definitions (CSC products of Model/Sparse.v, built by from_triplets) is "
           "run against the implementation on systems of order <= 12; an oracle with an exact-rational residual judges every Ok answer up to order 60."),
-    note=("The f64 drift of the residual recurrence and finiteness of x are NOT proved: they are searched with the allowance "
-          "64(k+1)eps(||A|| X + ||b||)/||b||', X taken from the float model's trace. The exact-arithmetic theorems treat a division by zero as a panic "
+    note=("The drift of the residual recurrence is a theorem in the standard rounding model for CG, BiCG and BiCGSTAB (not QMR, not at binary64); on the implementation it is searched with the allowance "
+          "64(k+1)eps(||A|| X + ||b||)/||b||', X taken from the float model's trace; finiteness of x is searched. The exact-arithmetic theorems treat a division by zero as a panic "
           "(the run returns nothing), where f64 produces inf/NaN (then no test can succeed: NaN <= tol is false)."),
     technique="Coq proof over an abstract field (characterisation lemma for fuelled early-exit loops + per-solver invariant) + float-model/implementation differential execution + exact-residual oracle",
     design="7 (C08)")
